@@ -48,23 +48,29 @@ func VerifHarness_C06_Underlying() {
 		tgtEnum = srcEnum
 	}
 	enumEnabled := nondetBool("enum-detection-on")
-	// which custom function exists: none, underlying(S) -> T, S -> underlying(T), underlying(S) -> underlying(T)
-	which := nondetChoice("custom-function", 4)
+	// which custom functions exist: underlying(S) -> T, S -> underlying(T), underlying(S) -> underlying(T) - any
+	// subset. With several of them the one closest to the declared types is used: a function that yields T itself
+	// before one whose result has to be converted again, a function for underlying(S) before one that takes S
+	// (the order of builder.findUnderlyingExtendMapping, pinned here)
+	h1, h2, h3 := nondetBool("function(underlying(S),T)"), nondetBool("function(S,underlying(T))"), nondetBool("function(underlying(S),underlying(T))")
+	which := 0
+	switch {
+	case h1:
+		which = 1
+	case h3:
+		which = 3
+	case h2:
+		which = 2
+	}
 	setting := nondetBool("useUnderlyingTypeMethods")
 
 	source, target := xtype.TypeOf(srcN), xtype.TypeOf(tgtN)
 	conf := &config.Method{Common: config.Common{UseUnderlyingTypeMethods: setting, Enum: enumConfig(enumEnabled)}, Fields: map[string]*config.FieldMapping{}}
 	ctx := &MethodContext{Namer: namer.New(), Conf: conf, SeenNamed: map[string]struct{}{}, OutputPackagePath: "example.org/out",
 		HasMethod: func(_ *MethodContext, s, t types.Type) bool {
-			switch which {
-			case 1:
-				return types.Identical(s, under) && types.Identical(t, tgtN)
-			case 2:
-				return types.Identical(s, srcN) && types.Identical(t, under)
-			case 3:
-				return types.Identical(s, under) && types.Identical(t, under)
-			}
-			return false
+			return (h1 && types.Identical(s, under) && types.Identical(t, tgtN)) ||
+				(h2 && types.Identical(s, srcN) && types.Identical(t, under)) ||
+				(h3 && types.Identical(s, under) && types.Identical(t, under))
 		}}
 	b := &UseUnderlyingTypeMethods{}
 	matches := b.Matches(ctx, source, target)
